@@ -173,30 +173,60 @@ def run(prog, rep, tier, repo):
     rep.floor('comoment-update', 2, 'welford_update, sample_covariance_online')
 
     # ------------------------------------------------------------------ D3 strictness
-    for name, op in (('argmin', 'Gt'), ('argmax', 'Lt')):
+    # whatever the loop idiom (fold closure, for loop, while loop): every store that replaces the running candidate is control dependent on
+    # a comparison between a data element and the running extremum; that comparison must be strict in the improving direction
+    for name, want in (('argmin', 'Lt'), ('argmax', 'Gt')):       # element `want` best
         k = ST + 'order::' + name
-        cl = [b for kk, b in pdb.bodies.items() if kk.startswith(k + '::{closure')]
         key = 'first-occurrence:%s' % name
-        if not cl:
-            rep.viol('first-occurrence', key, 'fold closure not found')
+        f0 = prog.func(k)
+        if f0 is None:
+            rep.viol('first-occurrence', key, 'function disappeared')
             continue
-        g = prog.func(cl[0].key)
-        rep.touch(cl[0].key, k)
-        acc = ('arg', 2, g.names.get(2))
-        ok = False
-        why = ''
-        for s in g.stores():
-            if tag(s.value) == 'agg' and s.value[1] == 'tuple':
-                gs = g.guards().get(s.bb, [])
-                for cn, v in gs:
-                    if tag(cn) == 'bin' and v is True and tag(cn[2]) == 'field' and cn[2][1] == acc and cn[2][2] == 1:
-                        ok = cn[1] == op
-                        why = show(cn)
-                    elif tag(cn) == 'bin' and v is True and tag(cn[3]) == 'field' and cn[3][1] == acc and cn[3][2] == 1:
-                        ok = cn[1] == {'Gt': 'Lt', 'Lt': 'Gt'}[op]
-                        why = show(cn)
-        (rep.ok if ok else rep.viol)('first-occurrence', key, 'replaces only on the strict test %s: ties keep the first index' % why if ok else
-                                     '%s replaces its candidate on `%s`: with a non-strict test the last of several equal extrema is returned' % (name, why or '?'), site_of(g.body))
+        bodies = [f0] + [prog.func(b.key) for kk, b in pdb.bodies.items() if kk.startswith(k + '::{closure')]
+        verdicts = []
+        for g in bodies:
+            rep.touch(g.body.key)
+
+            def is_elem(t):
+                # a data element: x[i], an iterator item, a component of the closure's (index, element) argument
+                if tag(t) == 'index' and tag(t[2]) != 'range':
+                    return True
+                if tag(t) == 'item':
+                    return True
+                if tag(t) == 'field' and (tag(t[1]) == 'item' or (tag(t[1]) == 'arg' and t[1][1] >= 3)):
+                    return True
+                if tag(t) == 'local' and g.names.get(t[1]) in ('v', 'j', 'x', 'val', 'value') and False:
+                    return True
+                return False
+            for cn, v in {(c, vv) for gl in g.guards().values() for c, vv in gl}:
+                if tag(cn) != 'bin' or len(cn) < 5 or cn[4] != 'f64' or cn[1] not in ('Lt', 'Le', 'Gt', 'Ge') or not isinstance(v, bool):
+                    continue
+                a, b = cn[2], cn[3]
+                ea, eb = is_elem(a), is_elem(b)
+                # single-def locals are inlined, so `let v = data[i]` shows up as the index read itself
+                if ea == eb:
+                    continue
+                op = cn[1] if ea else {'Lt': 'Gt', 'Le': 'Ge', 'Gt': 'Lt', 'Ge': 'Le'}[cn[1]]      # element op best
+                if v is False:
+                    op = {'Lt': 'Ge', 'Le': 'Gt', 'Gt': 'Le', 'Ge': 'Lt'}[op]
+                # does a replacement happen under it?  (a store to a multi-definition local / a tuple result in a block this edge dominates)
+                blocks = [bb for bb, gl in g.guards().items() if (cn, v) in gl]
+                def brings_new(t):
+                    # the stored value contains the element / its index (an `else { acc }` arm stores the old accumulator back: no replacement)
+                    return any(is_elem(z) or tag(z) == 'item' or (tag(z) == 'field' and tag(z[1]) == 'arg' and z[1][1] >= 3) for z in subterms(t))
+                repl = [st for st in g.stores() if st.bb in blocks and (tag(st.target) == 'local' or tag(st.value) == 'agg') and brings_new(st.value)]
+                if not repl:
+                    continue
+                verdicts.append((op, show(cn), v))
+        if not verdicts:
+            rep.undecided('first-occurrence', key, 'no replacement guarded by a comparison of an element with the running extremum recognised', site_of(f0.body), proof=False)
+            continue
+        bad = [vd for vd in verdicts if vd[0] != want]
+        if bad:
+            rep.viol('first-occurrence', key, '%s replaces its candidate when `%s` is %s, i.e. on element %s best: with a non-strict (or reversed) test the last of several '
+                     'equal extrema is returned' % (name, bad[0][1], bad[0][2], {'Lt': '<', 'Le': '<=', 'Gt': '>', 'Ge': '>='}[bad[0][0]]), site_of(f0.body))
+        else:
+            rep.ok('first-occurrence', key, 'replaces only on the strict test %s: ties keep the first index' % verdicts[0][1])
     rep.floor('first-occurrence', 2, 'argmin, argmax')
 
     # ------------------------------------------------------------------ D4 wiring
@@ -296,6 +326,18 @@ def _centring(e, mean_x, mean_y):
                 if y[0] == 'b' and y[1] == 'Mul' and y[2][0] == 'b' and y[2][1] == 'Sub' and y[3][0] == 'b' and y[3][1] == 'Sub':
                     return y[2], y[3]
         return None
+    # one factor centred, the other raw: sum (x - mx) * y.  Equal to the co-moment in exact arithmetic only (sum (x - mx) = 0); in floating
+    # point the rounding residual of that sum is multiplied by mean(y), so the result moves when a constant is added to y
+    if num[0] == 'red' and num[1] in ('sum', 'acc'):
+        for x_ in num[2]:
+            y_ = x_
+            if y_[0] == 'b' and y_[1] == 'Add' and ('sym', 'acc') in (y_[2], y_[3]):
+                y_ = y_[3] if y_[2] == ('sym', 'acc') else y_[2]
+            if y_[0] == 'b' and y_[1] == 'Mul':
+                for u, v in ((y_[2], y_[3]), (y_[3], y_[2])):
+                    if u[0] == 'b' and u[1] == 'Sub' and u[2] in (('sym', 'X'), ('sym', 'Y')) and v in (('sym', 'X'), ('sym', 'Y')):
+                        return 'bad', 'only one factor of the product is a deviation (%s) while the other is the raw series %s: the estimator is not shift ' \
+                                      'invariant in that series (mean/sd of 1e8 turns 0.668 into 2.24)' % (show_expr(u), show_expr(v))
     pt = product_terms(num)
     if pt is not None:
         a, b = pt
